@@ -475,7 +475,7 @@ class ExcelModel:
         nodes = {
             k: d['value']
             for k, d in self.dsp.default_values.items()
-            if not isinstance(k, sh.Token)
+            if not isinstance(k, sh.Token) and d['value'] is not ERR_CIRCULAR
         }
         nodes = {k: _escape_text(v) for k, v in nodes.items()}
         nodes = {
